@@ -12,7 +12,7 @@ Names == { "null", "true", "false",
            "h_0", "h_1", "h_1_5",
            "s_short", "s_long", "s_empty", "s_bigint", "s_bigint_small", "s_bigdec", "s_1", "s_bigint_near", "s_bigint_neg", "s_bigint_neg_near", "s_bigdec_near",
            "bytes_empty", "bytes_12", "bytes_12_b64",
-           "obj_default", "obj_empty", "obj_a1", "obj_ab", "obj_ba", "obj_a2",
+           "obj_default", "obj_empty", "obj_a1", "obj_ab", "obj_ba", "obj_a2", "obj_b1", "obj_a1c1", "obj_a2b1", "obj_b1c3", "obj_a1b1",
            "arr_empty", "arr_1", "arr_1_2", "arr_1d",
            "cref_i64_1", "cref_null", "cref_obj_a1", "ref_arr_1" }
 Types == { "int8", "uint8", "int16", "uint16", "int32", "uint32", "int64", "uint64" }
